@@ -54,10 +54,14 @@ macro_rules! plain {
                     b'a' => d.val("a", &self.next_u32().to_le_bytes()),
                     b'b' => d.val("b", &self.next_u64().to_le_bytes()),
                     b'f' => {
+                        // destination at a varying offset from an 8-byte boundary
                         let n: usize = op[1..].parse().unwrap();
-                        let mut buf = vec![0u8; n];
-                        self.fill_bytes(&mut buf);
-                        d.val("f", &buf);
+                        let off = (n / 3 + n) % 8;
+                        let mut backing = vec![0u8; n + 16];
+                        let base = backing.as_ptr() as usize;
+                        let start = (8 - base % 8) % 8 + off;
+                        self.fill_bytes(&mut backing[start..start + n]);
+                        d.val("f", &backing[start..start + n]);
                     }
                     b'R' => {
                         // R<k>:<n> = k fills of n bytes (long runs past counter-width boundaries)
